@@ -107,7 +107,9 @@ def main(argv=None):
     if getattr(mod, "AWKWARD_REGISTRATION_MIX", False):
         # vector.register_awkward() is a documented configuration of the Awkward backend (behaviors in Awkward's global
         # registry, arrays carry behavior=None): alternate shards (shifted by seed and repetition) run in that mode
-        specs = [dict(s, _registered=((i + a.seed + int(s.get("_rep", 0))) % 2 == 1)) if isinstance(s, dict) else s for i, s in enumerate(specs)]
+        # (a plan may fix the mode of a shard itself by giving "_registered"; it is then shifted by seed and repetition too)
+        specs = [dict(s, _registered=(((i if "_registered" not in s else int(s["_registered"])) + a.seed + int(s.get("_rep", 0))) % 2 == 1))
+                 if isinstance(s, dict) else s for i, s in enumerate(specs)]
     timeout = getattr(mod, "SHARD_TIMEOUT", {"quick": 600, "thorough": 3600})[a.tier]
     total = Result()
     work = tempfile.mkdtemp(prefix=f"vmon-{prop}-")
